@@ -55,17 +55,19 @@ pub uninterp spec fn spec_env_in_token(t: Seq<char>) -> bool;
 pub open spec fn has_op(s: Seq<char>) -> bool { s.contains('|') || s.contains('&') || s.contains('<') || s.contains('>') }
 // which words expand_env may touch, and what one word may look like afterwards
 pub open spec fn env_elig(t: Token) -> bool { t.0@ != "`"@ && t.0@ != "'"@ && t.0@ != "\\"@ && spec_env_in_token(t.1@) }
+pub open spec fn has_redir(s: Seq<char>) -> bool { s.contains('<') || s.contains('>') }
 pub open spec fn env_tok_ok(sh: Shell, otoks: Seq<Token>, k: int, n: Token) -> bool {
     let o = otoks[k];
     &&& (!env_elig(o) ==> n.1@ == o.1@ && n.0@ == o.0@)
     // C10: the new text is the specified single-pass expansion of the old text
     &&& (env_elig(o) ==> n.1@ == env_expand(sh, o.1@))
     // the tag is kept, or an unquoted word into which the value brought an operator character becomes double-quoted
-    &&& (n.0@ == o.0@ || (o.0@.len() == 0 && n.0@ == "\""@ && !has_op(o.1@) && has_op(n.1@)))
+    &&& (n.0@ == o.0@ || (o.0@.len() == 0 && n.0@ == "\""@ && !has_redir(o.1@) && has_op(n.1@)))
     // C13: an operator character in a word that is still unquoted was written there, it did not come from a value
     //      (exempt are only the untagged NAME=value words the line starts with: they are taken off the line as assignments before
     //      operators are looked for; a NAME=value shaped word anywhere else is an argument like any other)
-    &&& (n.0@.len() == 0 && has_op(n.1@) ==> has_op(o.1@) || assign_prefix(otoks, k))
+    //      and the words in which the user wrote a redirection (`2>$F`): there `<` / `>` is syntax by intent)
+    &&& (env_elig(o) && n.0@.len() == 0 && has_op(n.1@) ==> has_redir(o.1@) || assign_prefix(otoks, k))
 }
 pub open spec fn env_lo(b: Seq<(usize, String)>, m: int, n: int) -> int { if 0 <= m < b.len() { b[m].0 as int } else { n } }
 pub open spec fn env_inb(b: Seq<(usize, String)>, k: int) -> bool { exists|m: int| 0 <= m < b.len() && (#[trigger] b[m]).0 as int == k }
@@ -161,8 +163,16 @@ pub open spec fn env_expand(sh: Shell, t: Seq<char>) -> Seq<char>
     else if one_env(sh, t).1.len() < t.len() { one_env(sh, t).0 + env_expand(sh, one_env(sh, t).1) }
     else { one_env(sh, t).0 }
 }
+// tools::get_user_home(): the HOME directory (environment lookup; stable during the pass: assumed)
+pub uninterp spec fn spec_home() -> Seq<char>;
 #[verifier::external_body]
-pub fn vx_home_replace(s: &str) -> (r: String) { unimplemented!() }
+pub fn get_user_home() -> (r: String) ensures r@ == spec_home() { unimplemented!() }
+// &text[1..] of a word that starts with the one-byte char `~`: the text behind it
+#[verifier::external_body]
+pub fn vx_after_tilde(text: &String) -> (r: &str)
+    requires text@.len() > 0 && text@[0] == '~'
+    ensures r@ == text@.skip(1)
+{ &text[1..] }
 #[verifier::external_body]
 pub fn parse_line(line: &str) -> (r: LineInfo) { unimplemented!() }
 
@@ -436,8 +446,11 @@ def text_pass(name, cond, label_props, inner_dec=None, extra_pre=()):
 
 
 expand_home = text_pass('expand_home', 'unq(T) && T.1@.len() > 0 && T.1@[0] == \'~\'', 'C12+C13+C01',
-    extra_pre=[Rw(r'let ptn = [\s\S]*?s = result\.to_string\(\);', 's = vx_home_replace(&s);', regex=True, rule='R10',
-                  why='tilde regex replacement (Regex::new + replace_all with the home directory) as an uninterpreted function of the word')])
+    extra_pre=[Rw('tools::get_user_home()', 'get_user_home()', rule='R0'),
+               Rw('&text[1..]', 'vx_after_tilde(text)', rule='R12', why='byte slice behind the leading one-byte `~`')])
+# C12: the leading `~` becomes the home directory, as text, the rest of the word kept
+expand_home.loops[0].invariant.append(('C12.inv.expand_home.tilde_becomes_the_home_directory_as_text',
+    'forall|m: int| 0 <= m < buff@.len() ==> (#[trigger] buff@[m]).1@ == spec_home() + tokens@[buff@[m].0 as int].1@.skip(1)'))
 # starts_with("~") is rewritten to vx_starts_with_str: relate it to the first-char form used in the contract
 expand_home.hints = {'loop-0-body-entry': 'assert("~"@.len() == 1 && "~"@[0] == \'~\') by { reveal_strlit("~"); } '
                                           'assert(forall|a: Seq<char>| #![trigger a.subrange(0, 1)] a.len() >= 1 ==> (a.subrange(0, 1) == "~"@) == (a[0] == \'~\')) by { '
